@@ -9,6 +9,8 @@ multiplying traces.
     values (targets, verbose). Accounting: every field of `Args` is consumed by exactly one layer call, is a listed shortcut flag / item list
     read by a derived table, or is a listed action that never reaches the configuration; every field of every config-file section is consumed
     by exactly one layer call (deprecated_* fields by validate_deprecated).
+ R2v what is validated is what takes effect: no argument of a validate_* call in build_config contains the raw command-line field or raw file
+    entry of a layered option outside its layering call.
  R2d derived options: --udp/--tcp/--icmp and -4/-6 override the layered protocol / address family and otherwise map it by name; multipath
     strategy and DNS resolve method map by name; unprivileged / icmp-extensions map true to the enabled variant; max_rounds is None for tui /
     stream and Some(report_cycles) otherwise; tui_max_addrs maps the *layered* value (0 → auto); port direction follows the documented table.
@@ -73,7 +75,8 @@ def run(chk, tier):
     for r, d, fl in (('R1', 'layer helper tables', 3), ('R2', 'provenance of every TrippyConfig field; every Args / file field consumed once', 150),
                      ('R2d', 'decision tables of derived options', 9), ('R3', 'theme / binding items: command line, then file, then default, names agree', 70),
                      ('R4', 'documented defaults equal the defaults used', 30), ('R5', 'Builder::build accept table and enforced ranges', 12),
-                     ('R6', 'no explicit panic reachable in a builder-accepted cell', 100), ('R7', 'send path / state machine panic-site audit under the builder-enforced ranges', 60), ('R7t', 'loops terminate', 0)):
+                     ('R6', 'no explicit panic reachable in a builder-accepted cell', 100), ('R7', 'send path / state machine panic-site audit under the builder-enforced ranges', 60), ('R7t', 'loops terminate', 0),
+                     ('R2v', 'validators are given effective (layered) values', 15)):
         chk.rule(r, d, floor=fl)
 
     # ---- R1 --------------------------------------------------------------------------------------------------
@@ -202,6 +205,47 @@ def run(chk, tier):
             chk.ok('R2', inst, 'per-item layering (R3)')
         else:
             chk.fail('R2', inst, fn_loc(fb), 'TrippyConfig.%s is %s: neither a layered option, a listed derived option nor a command-line-only value' % (n, v[:160]), key='R2|field|%s' % n)
+
+    # ---- R2v: what is validated is what takes effect --------------------------------------------------------------------
+    # every validate_* call sees layered values: an argument that still contains the raw command-line field (or the raw file entry) of a layered
+    # option validates only one source of that option — a value given in the other source takes effect unvalidated
+    def strip_layers(t):
+        out, i = '', 0
+        while True:
+            m = re.search(r'call:config::cfg_layer(?:_opt|_bool_flag)?\(', t[i:])
+            if not m:
+                return out + t[i:]
+            out += t[i:i + m.start()] + 'LAYER'
+            j, depth = i + m.end(), 1
+            while j < len(t) and depth:
+                depth += {'(': 1, ')': -1}.get(t[j], 0)
+                j += 1
+            i = j
+    vcalls = [e for e in final.st.events if e[0] == 'call' and re.search(r'config::validate_\w+$', e[1])]
+    for r in regions:
+        for _d, ev, _row, _x in r.rows:
+            vcalls += [e for e in ev if e[0] == 'call' and re.search(r'config::validate_\w+$', e[1])]
+    seen_v = set()
+    for e in vcalls:
+        vn = short(e[1]).split('::')[-1]
+        if vn == 'validate_deprecated':
+            continue
+        for ai, x in enumerate(e[7]):
+            full = vshow(x)
+            if (vn, ai, full) in seen_v:
+                continue
+            seen_v.add((vn, ai, full))
+            inst = 'validator:%s#%d' % (vn, ai)
+            if re.fullmatch(r'call:Tui(Theme|Bindings)::from\(.*\)', full):
+                chk.ok('R2v', inst, 'per-item layered value (R3)', nontrivial=False)
+                continue
+            rest = strip_layers(full)
+            raw = [m_ for m_ in re.findall(r'\bargs\.(\w+)', rest) if m_ in used_args] + ['[%s]' % m_ for m_ in re.findall(r'\bfile\.(\w+)', rest)]
+            if raw:
+                chk.fail('R2v', inst, '%s:%d' % (fb['span']['file'], e[3][1]), '%s is given %s: the un-layered source of option %s — a value for it that comes from the other source '
+                         '(config file / command line) takes effect without being validated' % (vn, full[:100], raw[0]), key='R2v|%s|%s' % (vn, raw[0]))
+            else:
+                chk.ok('R2v', inst, rest[:70])
 
     # ---- R2d derived tables ---------------------------------------------------------------------------------------
     def rows_of(name):
